@@ -20,7 +20,7 @@ TIME_BUDGET = {"quick": 300, "thorough": 1800}
 FLOORS = {"quick": {"signatures_checked": 500, "pubkey_offers": 100, "connects": 2000, "distinct": 800, "rechallenges_after_pubkey": 50}, "thorough": {"signatures_checked": 5000, "connects": 8000}}
 EXHAUSTIVE = {"quick": False, "thorough": True}
 
-MAXDATAS = [4096, 8192, 65536, 1024 * 1024, 5000, 2 * 1024 * 1024, 0xFFFFFFFF]     # (whatever the device announces is adopted, also above the host's own 1 MiB)
+MAXDATAS = [4096, 8192, 65536, 1024 * 1024, 5000, 2 * 1024 * 1024, 0xFFFFFFFF, 0]     # (whatever the device announces is adopted, also above the host's own 1 MiB)
 STRAYS = [[], [("OKAY", 5, 6, b"")], [("CLSE", 9, 1, b""), ("WRTE", 9, 1, b"leftover")], [("WRTE", 1, 1, b"x" * 100), ("OKAY", 1, 1, b""), ("CLSE", 1, 1, b"")]]
 
 
@@ -315,7 +315,7 @@ def run_case(case):
             stats["real_rsa_cases"] += 1
         v, out, result = one_connect(sess, case["first"], case["maxdata"], case["strays"], stats, rng, real_keys=real)
         viol += v
-        if result[0] == "ret" and out.ok and rng.random() < 0.3 and case["maxdata"] <= 2 * 1024 * 1024:      # (the library allocates a send buffer of maxdata bytes per transfer)
+        if result[0] == "ret" and out.ok and rng.random() < 0.3 and 0 < case["maxdata"] <= 2 * 1024 * 1024:      # (the library allocates a send buffer of maxdata bytes per transfer)
             # maxdata adoption is also visible in the WRTE sizes of a following push
             size = min(3 * case["maxdata"], 400000) if case["maxdata"] <= 1024 * 1024 else 1500000
             o2 = sess.call("push", io.BytesIO(b"\xa5" * size), "/after-connect", mtime=3)
